@@ -232,7 +232,7 @@ fn test_hist(c: &HCase) -> TestResult {
     let mut i = 0usize;
     let mut budget = (wire_bytes.len() + 100) * c.schedule.len() * 4;
     let mult = 1 + wire_bytes.len() / 4000;
-    while !d.all_fed() {
+    while !d.all_fed() && !d.gave_up_after_end {
         budget -= 1;
         vensure!(budget > 0, "harness-inconsistent", "schedule made no progress within its budget");
         let act = &c.schedule[i % c.schedule.len()];
